@@ -31,4 +31,9 @@ C_CFields == {"", "+", "!", "$", "+x", "!x", "x", " "}
 C_CN == 2
 C_TermsC == {"\r\n"}
 C_HdrsC == {<<>>}
+\* family L: long lines ("@" = PAD run of k filler letters), k from length classes
+C_LongLines == {"GET /@ HTTP/1.0", "GET /wap/@ HTTP/1.0", "@\t+", "x /@ 0", "@"}
+C_Pads == {1000, 66000}
+C_TermsL == {"\r\n"}
+C_HdrsL == {<<>>}
 =============================================================================
